@@ -1,6 +1,7 @@
 package props
 
 import (
+	"go/token"
 	"go/types"
 	"strings"
 
@@ -427,6 +428,58 @@ func c11(c *Ctx) {
 		}
 	}
 
+	// ---- R11.W: a channel that gets a synthetic answer is not also registered ----------------------
+	r.Rule("R11.W", "a waiter is registered only when its caller will be reading: no path of sendPacket both spawns the synthetic answer (go resp <- …) and registers the same channel, otherwise the marker sent to it on rotation blocks the receive loop for ever", 1)
+	if sp := c.fn("R11.W", load.RootMod, "*MTProto", "sendPacket"); sp != nil {
+		var gos []*ssa.Go
+		for _, b := range sp.Blocks {
+			for _, in := range b.Instrs {
+				if g, ok := in.(*ssa.Go); ok {
+					gos = append(gos, g)
+				}
+			}
+		}
+		adds := an.CallsNamed(sp, "(*"+load.UtilsPkg+".SyncIntObjectChan).Add")
+		nW := 0
+		for _, g := range gos {
+			mc, ok := g.Call.Value.(*ssa.MakeClosure)
+			if !ok {
+				continue
+			}
+			fnc, _ := mc.Fn.(*ssa.Function)
+			if fnc == nil {
+				continue
+			}
+			// which captured channels does the goroutine send on?
+			for k, fv := range fnc.FreeVars {
+				sends := false
+				for _, b := range fnc.Blocks {
+					for _, in := range b.Instrs {
+						if sd, ok := in.(*ssa.Send); ok && tr.HasOrigin(sd.Chan, "free:"+fv.Name()) {
+							sends = true
+						}
+					}
+				}
+				if !sends || k >= len(mc.Bindings) {
+					continue
+				}
+				bound := mc.Bindings[k]
+				for _, a := range adds {
+					if !sameChannel(a.Common.Args[2], bound) {
+						continue
+					}
+					nW++
+					both := a.Block == g.Block() || blockReaches(a.Block, g.Block()) || blockReaches(g.Block(), a.Block)
+					r.Check(!both, "R11.W", sprintf("synthetic-answer-not-registered#%d", nW), c.pos(a.Pos()),
+						"the channel that receives the synthetic answer at "+c.pos(g.Pos())+" is registered on the same path: its caller reads once and leaves, a later send to it (retry marker, rpc_result) never returns")
+				}
+			}
+		}
+		if nW == 0 {
+			r.Hold("R11.W", "synthetic-answer-not-registered", c.pos(sp.Pos()), sprintf("%d goroutine(s) spawned in sendPacket, none sends on a registered channel", len(gos)))
+		}
+	}
+
 	// ---- R11.R ----------------------------------------------------------------------------------
 	if mk := c.fn("R11.R", load.RootMod, "*MTProto", "makeRequest"); mk != nil {
 		ok := false
@@ -467,6 +520,26 @@ func reachesBlockStrict(from, to *ssa.BasicBlock) bool {
 		if reachesBlock(s, to, map[*ssa.BasicBlock]bool{}) {
 			return true
 		}
+	}
+	return false
+}
+
+// sameChannel: two SSA values denote the same channel (identical value, or loads of the same local variable).
+func sameChannel(a, b ssa.Value) bool {
+	if a == b {
+		return true
+	}
+	la, ok1 := a.(*ssa.UnOp)
+	lb, ok2 := b.(*ssa.UnOp)
+	if ok1 && ok2 && la.Op == token.MUL && lb.Op == token.MUL && la.X == lb.X {
+		return true
+	}
+	// a captured variable is bound by address: the binding is the Alloc, the registered value a load of it
+	if ok1 && la.Op == token.MUL && la.X == b {
+		return true
+	}
+	if ok2 && lb.Op == token.MUL && lb.X == a {
+		return true
 	}
 	return false
 }
